@@ -29,7 +29,7 @@ func (c13) Assumptions() []string {
 }
 
 func (c13) Batches(tier string, seed uint64) []core.Batch {
-	return spread("ar", 16, tierN(tier, 200, 3000))
+	return spread("ar", 16, tierN(tier, 900, 6000))
 }
 
 func (c13) Mandatory(tier string) []string {
